@@ -103,6 +103,24 @@ MUTANTS = [
      "            self.writePackedDataRecord(h, data, new_tpos)",
      "                data = None\n\n"
      "            self.writePackedDataRecord(h, data, new_tpos)"),
+    ('C09', 'time-travel-open-uses-saved-index', FS,
+     "        r = self._restore_index() if stop == b'\\377' * 8 else None",
+     "        r = self._restore_index()"),
+    ('C09', 'readonly-open-creates-absent-file', FS,
+     "                if read_only:\n                    # When open request is read-only we do not want to create\n                    # the file\n                    raise\n",
+     ""),
+    ('C01', 'zero-tail-with-zero-length-panics', FS,
+     "            if file_size - rtl < pos or rtl < TRANS_HDR_LEN:",
+     "            if file_size - rtl < pos:"),
+    ('C15', 'open-forgets-newest-id-as-clock-floor', FS,
+     "        self._ts = tid = TimeStamp(tid)\n        t = time.time()",
+     "        tid = TimeStamp(tid)\n        t = time.time()"),
+    ('C18', 'backup-written-under-final-name', RZ,
+     "    tempname = os.path.join(os.path.dirname(dst), 'tmp.tmp')",
+     "    tempname = dst"),
+    ('C10', 'resolver-instance-without-constructor-arguments', CR,
+     "klass.__new__(klass, *newargs)",
+     "klass.__new__(klass)"),
     ('C09', 'sanity-ignores-positions', FS,
      "                if index.get(h.oid, 0) != opos:\n                    return 0  # insane",
      "                if False:\n                    return 0  # insane"),
@@ -470,8 +488,12 @@ def run_mutant(prop, name, rel, old, new, runs=None):
 
 def main(cids):
     missed = 0
+    only = [x for x in os.environ.get('ZSIM_MUTANTS_ONLY', '').split(',')
+            if x]
     for m in MUTANTS:
         if cids and m[0] not in cids:
+            continue
+        if only and m[1] not in only:
             continue
         try:
             runner.load_check(m[0])
